@@ -22,7 +22,7 @@ ENGINE = 'E2-choice-prefix-dfs'
 TECHNIQUE = ('small-scope enumeration of feature trajectories / count tables against textbook definitions + choice-prefix DFS '
              'over OpenMP schedules of the real compiled joint-count kernel (deviation-bounded, with write-set isolation runs)')
 RULE = ('X,Y: all integer arrays with frames<=3, features<=2, states<=3 for configurations with unequal feature and state counts '
-        'x 8 integer dtypes (mixed pairs on a subset) x layouts {C,F,strided,negative stride} x n_x/n_y {None,exact,exact+1}; '
+        'x 8 integer dtypes (mixed pairs on a subset) x layouts {C,F,strided,negative stride} x n_x/n_y {None,exact,exact+1}; mixed integer widths with ids beyond the narrower type (127/128, 255/256, 300, 32767/32768); '
         'bad ids (-1, n, frame mismatch) must be rejected (forked child); schedules: T=1..4 threads, <=2 (T: <=4) deviations, '
         'isolation run per thread; MI laws on every table reached + all 2x2 and 2x3 tables over {0..3}; KL on all pairs of '
         'denominator-4 distributions (n=2,3); state=(X,Y,dtypes,layout,n mode | table | schedule); non-trivial = table with a '
@@ -31,7 +31,7 @@ ASSUMPTIONS = ['MI/entropy identities compared at 1e-12 absolute (natural log)',
                'intra-chunk preemption covered by the write-set argument (per-thread partial count tables have disjoint support '
                'and sum to the total), not by enumeration',
                'NEP-49 poison allocator fills fresh numpy buffers with NaN during the run']
-GUARDS = {'unequal_sides': 500, 'mixed_dtype': 100, 'strided': 100, 'rejected_bad_ids': 50, 'multi_enabled': 50,
+GUARDS = {'wide_ids': 50, 'unequal_sides': 500, 'mixed_dtype': 100, 'strided': 100, 'rejected_bad_ids': 50, 'multi_enabled': 50,
           'tables_with_zero_cell': 500, 'rectangular_norm': 50, 'pooled': 100, 'weighted': 100, 'kl_pairs': 200}
 EXT = 'enspara.info_theory.libinfo'
 DTYPES = ('int8', 'int16', 'int32', 'int64', 'uint8', 'uint16', 'uint32', 'uint64')
@@ -41,7 +41,7 @@ CONFIGS = ((1, 2, 2, 3), (2, 3, 1, 2), (2, 2, 1, 3), (1, 3, 1, 3), (2, 2, 2, 2))
 def shards(tier, seed):
     sh = [('counts', tier, ci, T) for ci in range(len(CONFIGS)) for T in (1, 2, 3)]
     sh += [('reject', tier, 0, 0), ('sched', tier, 0, 0), ('tables', tier, 0, 0), ('tables', tier, 1, 0), ('kl', tier, 0, 0),
-           ('norm', tier, 0, 0), ('self', tier, 0, 0)]
+           ('norm', tier, 0, 0), ('self', tier, 0, 0), ('bigids', tier, 0, 0)]
     return sh
 
 
@@ -387,19 +387,58 @@ def check_reject(ctx):
     ctx.sample(case)
 
 
+def check_bigids(ctx):
+    """mixed integer widths where the wider side uses ids the narrower type cannot hold"""
+    from enspara.info_theory import mutual_info as mi
+    import warnings
+    idsets = ([0, 127, 128, 1], [255, 256, 0, 255], [300, 129, 300, 2], [32767, 32768, 5, 32768])
+    for ids in idsets:
+        for wide in ('int16', 'int32', 'int64', 'uint16', 'uint32'):
+            if max(ids) > np.iinfo(wide).max:
+                continue
+            for narrow in ('int8', 'uint8', 'int16'):
+                if np.dtype(narrow).itemsize >= np.dtype(wide).itemsize:
+                    continue
+                for wide_side in ('X', 'Y'):
+                    ctx.ev()
+                    ctx.guard('wide_ids')
+                    W = np.array(ids, dtype=wide).reshape(-1, 1)
+                    N = np.array([0, 1, 1, 0], dtype=narrow).reshape(-1, 1)
+                    X, Y = (W, N) if wide_side == 'X' else (N, W)
+                    case = {'kind': 'bigids', 'ids': ids, 'wide': wide, 'narrow': narrow, 'wide_side': wide_side}
+                    ctx.state(('bigids', tuple(ids), wide, narrow, wide_side), nontrivial=True)
+                    nx, ny = int(X.max()) + 1, int(Y.max()) + 1
+                    want = count_oracle(X.astype(np.int64), Y.astype(np.int64), nx, ny)
+                    for given in (False, True):
+                        try:
+                            with warnings.catch_warnings():
+                                warnings.simplefilter('ignore')
+                                jc = np.asarray(mi.joint_counts(X.copy(), Y.copy(), n_x=nx if given else None, n_y=ny if given else None))
+                        except Exception as e:
+                            ctx.violation('joint_counts:mixed_width:raises:%s' % type(e).__name__, case,
+                                          'legal ids rejected: %r (%r)' % (e, case))
+                            break
+                        if jc.shape != want.shape or not np.array_equal(jc.astype(np.int64), want):
+                            nz = np.argwhere(jc)
+                            ctx.violation('joint_counts:mixed_width:value', case, 'non-zero cells %r, expected %r (%r)' % (
+                                nz.tolist(), np.argwhere(want).tolist(), case))
+                            break
+    ctx.sample(case)
+
+
 def check_sched(tier, ctx):
     from enspara.info_theory import libinfo
     from .. import sched
     bound = 2 if tier == 'quick' else 4
     rng_cases = []
-    for fx, fy in ((1, 2), (2, 1), (3, 2), (4, 1)):
+    for fx, fy in ((1, 1), (1, 2), (2, 1), (3, 2), (4, 1)):
         X = (np.arange(3 * fx).reshape(3, fx) * 2 % 3).astype(np.int32)
         Y = (np.arange(3 * fy).reshape(3, fy) % 2).astype(np.int32)
         rng_cases.append((X, Y))
     for X, Y in rng_cases:
         fx = X.shape[1]
         want = count_oracle(X, Y, 3, 2)
-        for T in range(1, fx + 2):
+        for T in range(1, max(fx, X.shape[0]) + 2):
             outcomes = {}
             multi = [0]
 
@@ -493,6 +532,8 @@ def run_shard(sh, ctx):
         ctx.sample(case)
     elif kind == 'reject':
         check_reject(ctx)
+    elif kind == 'bigids':
+        check_bigids(ctx)
     elif kind == 'sched':
         check_sched(tier, ctx)
     elif kind == 'tables':
@@ -517,6 +558,8 @@ def replay(case, ctx):
         check_mi_laws(np.array(case['table'], dtype=np.uint32)[None, None], case, ctx)
     elif k == 'reject':
         check_reject(ctx)
+    elif k == 'bigids':
+        check_bigids(ctx)
     elif k == 'sched':
         check_sched(ctx.tier, ctx)
     elif k == 'kl':
